@@ -20,12 +20,51 @@ pub fn campaign(a: &Args) -> Campaign {
     }
 }
 
+/// Versioned stores: the query battery also holds time-travel reads and history listings
+/// (with and without timestamp ranges), interleaved with the plain point reads and scans - what
+/// one kind of query leaves in a cache must not change what another kind answers.
+pub fn campaign_versioned(a: &Args) -> Campaign {
+    Campaign {
+        histories: a.tier.pick(50, 800),
+        variants: a.tier.pick(4, 12),
+        gen: GenParams {
+            steps: 70,
+            nkeys: 8,
+            readers: true,
+            max_readers: 2,
+            cursors: false,
+            reader_pending: false,
+            reopen: true,
+            explicit_ts: true,
+            delete_pct: 30,
+            placement_pct: 40,
+            ..Default::default()
+        },
+        ver: VerMode::On,
+        vlog: VlogMode::Any,
+        exec: ExecOpts { fresh_battery: true, versioned: true, ..Default::default() },
+        tweak: |c, r| {
+            c.cache = *r.pick(&[4096, 1 << 20, 1 << 20]);
+        },
+        nontrivial: |s| s.compactions_changed > 0 && s.reads > 0 && s.hist_checks > 0,
+        minimise_budget: 120,
+    }
+}
+
 pub fn run(a: &Args) -> i32 {
     surrealkv::verif::set_manual_background(true);
     let mut run = Run::new("C06", a.tier, a.seed, "exploration");
     let c = campaign(a);
-    let out = campaign::run_campaign(&c, a.seed, "c06");
+    let mut out = campaign::run_campaign(&c, a.seed, "c06");
     campaign::report_failures(&mut run, &out, &c.exec);
+    {
+        let cv = campaign_versioned(a);
+        let outv = campaign::run_campaign(&cv, a.seed ^ 0x06, "c06v");
+        campaign::report_failures(&mut run, &outv, &cv.exec);
+        run.cov("observed_versioned_stores", campaign::stats_json(&outv.stats));
+        out.evaluations += outv.evaluations;
+        out.distinct.extend(outv.distinct.iter().cloned());
+    }
     run.cov("observed", campaign::stats_json(&out.stats));
     run.cov("option_sets", json!(out.cfg_sigs.len()));
     run.cov("logical_histories", json!(c.histories));
